@@ -243,6 +243,8 @@ class LineProbe:
 def worker_main(argv):
     prop, tier, seed, shard, nshards, out = argv[0], argv[1], int(argv[2]), int(argv[3]), int(argv[4]), argv[5]
     budget = float(argv[6]) if len(argv) > 6 else None
+    import warnings
+    warnings.simplefilter('ignore')
     env.import_wcmatch()
     mod = load_check(prop)
     ctx = Ctx(prop, tier, seed, shard, nshards)
